@@ -118,10 +118,13 @@ ARCH = [
     {"kind": "table", "sections": [{"df": {"cols": [{"name": "@N0", "dtype": "str", "values": ["\\sigma^2", "n >= 30", "\\chi_k"]}]}, "body": {},
                                     "headers": [{"text": ["@H0.0 \\theta"]}]}],
      "title": {"text": ["@T0 \\omega", "@T1 x_1"]}, "page_footer": {"text": ["@Q0 \\pagenumber of \\pagefield"]}},
+    # 19: a second figure document (three pictures, other bytes): two figure documents reading files at the same time
+    {"kind": "figure", "figure": {"files": [{"suffix": ".png", "stem": "g0", "hex": _PNG + "00"}, {"suffix": ".png", "stem": "g1", "hex": _PNG + "0102"},
+                                            {"suffix": ".png", "stem": "g2", "hex": _PNG + "030405"}]}, "source": {"text": ["@S0"], "as_table": False}},
 ]
 SHARED = {(9, 10): "footnote", (10, 9): "footnote"}
 COLD_PAIRS = [(13, 14), (14, 13), (0, 1), (4, 7)]      # schedules run in a fresh interpreter each (nothing encoded before)
-QUICK_FULL = [(0, 1), (1, 0), (0, 2), (2, 0), (3, 0), (0, 3)]                      # quick: every call boundary
+QUICK_FULL = [(0, 1), (1, 0), (0, 2), (2, 0), (3, 0), (0, 3), (3, 19), (19, 3), (3, 3)]                      # quick: every call boundary
 QUICK_STRIDE = [(2, 4), (4, 2), (5, 6), (6, 5), (4, 7), (7, 4), (7, 7), (2, 8), (8, 2), (9, 10), (10, 9), (11, 12), (12, 11), (13, 14), (14, 13),
                 (15, 16), (16, 15), (17, 18), (18, 17), (17, 0)]   # quick: every 3rd call boundary (thorough: every one)
 WIDE_STRIDE = {(15, 16): 6, (16, 15): 6, (13, 14): 4, (14, 13): 4}      # the larger documents: every 6th / 4th boundary in quick
